@@ -18,7 +18,7 @@ RULE = (
     "(SHA-256 of the bytes read through its current versioned key) to its own name; (2) live mementos without override whose stored bytes are equal "
     "carry the same content key and version, and a memoize whose content key already existed opens no file for writing under c/ (audit hook); "
     "(3) every live memento still reads exactly the digest recorded when it was created. Generators: all sequences up to length 3/4 over a 13-op "
-    "alphabet (exhaustive) + Hypothesis histories + a fault family: for 6 values x {cache, no cache} every mutating filesystem operation of one memoize is crashed / failed in every variant of C08, "
+    "alphabet (exhaustive) + Hypothesis histories + a fault family: for 6 values x {cache, no cache} (and for two writes to an override key that already holds another call's result, whose memento must keep reading its own bytes) every mutating filesystem operation of one memoize is crashed / failed in every variant of C08, "
     "then two fault-free memoizes of the same bytes by other calls must yield mementos whose content key is shared, readable, hashes to its name and reads back the value, and no listed content key may hold bytes that hash to something else; + a race family: two different calls publishing different values under one override key are interleaved by C09's deterministic scheduler (every one-preemption schedule; every 3rd yield point in quick) and afterwards each call must still be served the bytes of its own result. Non-trivial = a duplicate-bytes memoize, an override overwrite while an older memento of that key "
     "is live, or a forget between write and re-read; distinct by op-kind sequence."
 )
@@ -154,10 +154,14 @@ def _fault_child(spec):
         # another live entry first, so that the directories already exist
         pv = values.build({"t": "str", "v": "pre-existing"})
         st.backend.memoize(None, storeops.make_memento(refs["fa#10"].with_args(0), pv), pv)
+    if spec.get("override"):
+        # another call has published a different result under the same override key before
+        ov = values.build({"t": "str", "v": "earlier-under-the-override-key"})
+        st.backend.memoize(spec["override"], storeops.make_memento(refs["f2#1"].with_args(7), ov), ov)
     mem = storeops.make_memento(refs["f#1"].with_args(0), value)
     with _faults.Controller(spec["root"], spec.get("plan")) as ctl:
         try:
-            st.backend.memoize(None, mem, value)
+            st.backend.memoize(spec.get("override"), mem, value)
             err = None
         except (IOError, OSError) as e:
             err = repr(e)
@@ -173,6 +177,19 @@ def _fault_verify(spec):
     value = values.build(spec["value"])
     problems = []
     cks = {}
+    if spec.get("override"):
+        # the memento created before the fault must still read the bytes it stored
+        rwa0 = refs["f2#1"].with_args(7)
+        try:
+            mem0 = st.backend.get_memento(rwa0.fn_reference_with_arg_hash())
+            back0 = None if mem0 is None else st.backend.read_result(mem0)
+            if mem0 is None:
+                problems.append(["lost", "the memento stored under the override key before the fault is gone"])
+            elif back0 != "earlier-under-the-override-key":
+                problems.append(["memento-bytes-changed", "the memento stored under the override key before the fault now reads %r" % (back0,)])
+        except (IOError, OSError) as e:
+            problems.append(["memento-bytes-unreadable", "the memento stored under the override key before the fault can no longer read its bytes: %r" % (e,)])
+        return problems
     for fnkey in ("f2#1", "f#1"):
         rwa = refs[fnkey].with_args(0)
         try:
@@ -228,7 +245,7 @@ def execute_fault(case, scratch):
     from vlib import proc, faults
     from checks.c08 import variants_for
     out = core.Outcome()
-    base = {"value": case["value"], "cache": case["cache"], "pre": case.get("pre", False)}
+    base = {"value": case["value"], "cache": case["cache"], "pre": case.get("pre", False), "override": case.get("override")}
     d0 = env.fresh_dir(scratch, "c07f-")
     try:
         dry = proc.forkrun(_fault_child, dict(base, root=d0, plan=None))
@@ -271,6 +288,9 @@ FAULT_CASES = [
     {"kind": "fault", "value": {"t": "nd", "dtype": "int64", "v": [1, 2, 3]}, "cache": False, "pre": False},
     {"kind": "fault", "value": {"t": "str", "n": 20000, "c": "L"}, "cache": False, "pre": True},
     {"kind": "fault", "value": {"t": "dict", "v": {"a": {"t": "float", "v": "1.5"}}}, "cache": True, "pre": False},
+    # the interrupted write goes to an override key under which another call has stored a result before
+    {"kind": "fault", "value": {"t": "str", "v": "later-under-the-override-key"}, "cache": False, "pre": False, "override": "ov/shared"},
+    {"kind": "fault", "value": {"t": "list", "v": [{"t": "int", "v": "2"}]}, "cache": False, "pre": True, "override": "exports/r#1"},
 ]
 
 
